@@ -216,3 +216,26 @@ Fixpoint nth_opt {A} (l : list A) (n : nat) : option A :=
   | x :: _, O => Some x
   | _ :: r, S m => nth_opt r m
   end.
+
+(* the VALUE strconv.Atoi returns when its error is ignored (`port, _ = strconv.Atoi(s)`):
+   0 on a syntax error, the clamped value on a range error *)
+Definition atoi_val (s : bytes) : Z :=
+  match atoi s with
+  | Some z => z
+  | None =>
+      match s with
+      | [] => 0%Z
+      | c :: r =>
+          let neg := Ascii.eqb c "-" in
+          let ds := if (neg || Ascii.eqb c "+")%bool then r else s in
+          match ds with
+          | [] => 0%Z
+          | _ => match digits_val ds 0 with
+                 | None => 0%Z
+                 | Some _ => if neg then int_min else int_max
+                 end
+          end
+      end
+  end.
+
+Definition ch (s : string) : ascii := match s with String c _ => c | EmptyString => zero end.
